@@ -349,31 +349,96 @@ func (u *Univ) mapLeaves(t *Term, f func(*Term) *Term) *Term {
 	return f(t)
 }
 
-// PossibleConsts enumerates leaf constants of an ite-tree (nil if not one).
+// PossibleConsts over-approximates the set of values a term can take by
+// set-valued evaluation (ite = union, operators applied pointwise); nil when
+// the set is not finite/small (a free variable is involved).
 func PossibleConsts(t *Term) []uint64 {
-	var out []uint64
-	seen := map[uint64]bool{}
-	var rec func(t *Term, d int) bool
-	rec = func(t *Term, d int) bool {
-		if d > 64 {
-			return false
-		}
-		if t.IsConst() {
-			if !seen[t.Val] {
-				seen[t.Val] = true
-				out = append(out, t.Val)
+	memo := map[*Term][]uint64{}
+	const cap = 64
+	var rec func(t *Term) []uint64
+	uniq := func(vs []uint64) []uint64 {
+		seen := map[uint64]bool{}
+		var out []uint64
+		for _, v := range vs {
+			if !seen[v] {
+				seen[v] = true
+				out = append(out, v)
 			}
-			return true
 		}
-		if t.Op == OIte {
-			return rec(t.Args[1], d+1) && rec(t.Args[2], d+1)
+		return out
+	}
+	rec = func(t *Term) []uint64 {
+		if r, ok := memo[t]; ok {
+			return r
 		}
-		return false
+		var r []uint64
+		switch t.Op {
+		case OConst:
+			r = []uint64{t.Val}
+		case OIte:
+			a, b := rec(t.Args[1]), rec(t.Args[2])
+			if a != nil && b != nil {
+				r = uniq(append(append([]uint64(nil), a...), b...))
+			}
+		case OExtract:
+			if a := rec(t.Args[0]); a != nil {
+				for _, v := range a {
+					r = append(r, (v>>uint(t.Y))&mask(t.W))
+				}
+				r = uniq(r)
+			}
+		case OZext:
+			r = rec(t.Args[0])
+		case OSext:
+			if a := rec(t.Args[0]); a != nil {
+				for _, v := range a {
+					r = append(r, uint64(sext64(v, t.Args[0].W))&mask(t.W))
+				}
+				r = uniq(r)
+			}
+		case OAdd, OSub, OMul, OUDiv, OURem, OSDiv, OSRem, OBAnd, OBOr, OBXor, OShl, OLShr, OAShr:
+			a, b := rec(t.Args[0]), rec(t.Args[1])
+			if a != nil && b != nil && len(a)*len(b) <= 4*cap {
+				for _, x := range a {
+					for _, y := range b {
+						if v, ok := foldBin(t.Op, t.W, x, y); ok {
+							r = append(r, v)
+						}
+					}
+				}
+				r = uniq(r)
+			} else if t.Op == OBAnd {
+				// x & smallconst has at most smallconst+1 values
+				for _, side := range [][]uint64{a, b} {
+					if len(side) == 1 && side[0] < 16 {
+						for v := uint64(0); v <= side[0]; v++ {
+							if v&side[0] == v {
+								r = append(r, v)
+							}
+						}
+					}
+				}
+			}
+		case OBNot:
+			if a := rec(t.Args[0]); a != nil {
+				for _, v := range a {
+					r = append(r, ^v&mask(t.W))
+				}
+			}
+		case ONeg:
+			if a := rec(t.Args[0]); a != nil {
+				for _, v := range a {
+					r = append(r, (-v)&mask(t.W))
+				}
+			}
+		}
+		if len(r) > cap {
+			r = nil
+		}
+		memo[t] = r
+		return r
 	}
-	if !rec(t, 0) {
-		return nil
-	}
-	return out
+	return rec(t)
 }
 
 func (u *Univ) Ite(c, a, b *Term) *Term {
